@@ -538,10 +538,12 @@ class CStyleParser(Parser):
                     count = None
                 else:
                     count = Expression(self.cstruct, d["count"])
-                    try:
-                        count = count.evaluate()
-                    except Exception:
-                        pass
+                    # A size that mentions an earlier field is evaluated when the data is read: fields go before constants
+                    if not {field.name for field in result}.intersection(count.tokens):
+                        try:
+                            count = count.evaluate()
+                        except Exception:
+                            pass
 
                 type_ = self.cstruct._make_array(type_, count)
 
